@@ -1,5 +1,156 @@
-(* Properties/C15.v -- placeholder, being written *)
-From RV Require Import Base.Prelude Name.NameModel Wire.WireTypes Cache.CacheModel Cache.CacheSpec Cache.CacheProofs.
-Theorem C15_prune_reports_current : forall tb c now c' r, prune tb c now = Ok (c', r) -> pr_current r = c_size c'.
-Proof. exact prune_reports_current. Qed.
-Print Assumptions C15_prune_reports_current.
+(* Properties/C15.v -- "Cache pruning is exact, bounded and least-recently-used".
+   Statements only; each is closed by [exact lemma] and followed by Print Assumptions.
+
+   Setting as in Properties/C05.v.  [Inv] is the representation invariant of
+   PartitionedCache (CacheSpec): unique keys, no duplicate value in a Vec, every
+   partition's size = number of its records >= 1, next_expiry = minimum expiry, both
+   priority queues hold exactly the partition keys with priorities last_read /
+   next_expiry, current_size = sum of the partition sizes.  [abs_map c] is the finite map
+   (name, type, data) -> expiry held by state c, [abs_lru c] the map name -> last use,
+   [card m n] says that m has exactly n entries.
+
+   Outside these theorems: std::sync::Mutex and thread schedules.  Every SharedCache
+   method body is one critical section, so a concurrent use is some sequential history;
+   that step is not formalised (the thorough tier hammers one cache from 2..8 threads and
+   checks Inv on the quiescent dump). *)
+From RV Require Import Base.Prelude Name.NameModel Wire.WireTypes
+  Cache.CacheFacts Cache.CacheModel Cache.CacheSpec Cache.CacheInsert Cache.CacheCount Cache.CachePrune Cache.CacheProofs.
+
+(* the invariant holds initially, is preserved by every operation, hence holds after
+   every history; no history reaches a Panic site (usize underflow) or runs out of fuel *)
+Theorem C15_inv_init : forall d, Inv (with_desired_size d).
+Proof. exact inv_init. Qed.
+Print Assumptions C15_inv_init.
+
+Theorem C15_inv_preserved : forall tb, tie_ok tb -> forall c now o,
+  Inv c -> exists c' now' x, step tb c now o = Ok (c', now', x) /\ Inv c' /\ c_desired c' = c_desired c.
+Proof. exact step_inv. Qed.
+Print Assumptions C15_inv_preserved.
+
+Theorem C15_inv_after_history : forall tb, tie_ok tb -> forall desired ops c now outs,
+  run tb ops (with_desired_size desired) 0 = Ok (c, now, outs) -> Inv c /\ c_desired c = desired.
+Proof. exact inv_after_history. Qed.
+Print Assumptions C15_inv_after_history.
+
+Theorem C15_history_never_panics : forall tb, tie_ok tb -> forall desired ops,
+  exists c now outs, run tb ops (with_desired_size desired) 0 = Ok (c, now, outs).
+Proof. exact history_never_panics. Qed.
+Print Assumptions C15_history_never_panics.
+
+(* prune_terminates: with the model's own fuel (|expiry queue| + 1 expiry steps,
+   |access queue| evictions) prune completes: no OutOfFuel, no Panic.  In particular the
+   [while current_size > desired_size] loop cannot spin on an empty queue. *)
+Theorem C15_prune_terminates : forall tb, tie_ok tb -> forall c now,
+  Inv c -> exists c' rep, prune tb c now = Ok (c', rep) /\ Inv c'.
+Proof. exact prune_terminates. Qed.
+Print Assumptions C15_prune_terminates.
+
+(* prune_no_expired_left *)
+Theorem C15_prune_no_expired_left : forall tb, tie_ok tb -> forall c now c' rep,
+  Inv c -> prune tb c now = Ok (c', rep) -> forall k e, abs_map c' k = Some e -> now < e.
+Proof. exact prune_no_expired_left. Qed.
+Print Assumptions C15_prune_no_expired_left.
+
+(* prune_at_most_desired *)
+Theorem C15_prune_at_most_desired : forall tb, tie_ok tb -> forall c now c' rep,
+  Inv c -> prune tb c now = Ok (c', rep) ->
+  c_size c' <= c_desired c /\ forall n, card (abs_map c') n -> n <= c_desired c.
+Proof. exact prune_at_most_desired. Qed.
+Print Assumptions C15_prune_at_most_desired.
+
+(* prune_reports_truth and prune_lru_whole_names_only_while_over: the result of prune is
+   an abstract prune ([a_prune]: expired entries go, then whole names [evs] in order, each
+   one cached, alive and least recently used at its turn and evicted only while the count
+   exceeds the desired size; last-use instants of surviving names unchanged) and the four
+   numbers are the cardinalities of the abstract sets ([report_ok]) *)
+Theorem C15_prune_refines : forall tb, tie_ok tb -> forall c now,
+  Inv c ->
+  exists c' rep evs, prune tb c now = Ok (c', rep) /\ Inv c' /\ c_desired c' = c_desired c /\
+    a_prune (abs_map c) (abs_lru c) now (c_desired c) (abs_map c') (abs_lru c') evs /\
+    report_ok (abs_map c) (abs_map c') now (c_desired c) evs rep.
+Proof. exact prune_refines. Qed.
+Print Assumptions C15_prune_refines.
+
+(* the same over histories: a prune at step i of any history is an abstract prune of the
+   state reached by the first i operations, reports the true numbers, leaves nothing
+   expired and at most the desired number of entries *)
+Theorem C15_prune_in_history : forall tb, tie_ok tb -> forall desired ops c now outs i rep,
+  run tb ops (with_desired_size desired) 0 = Ok (c, now, outs) ->
+  nth_error ops i = Some Prune -> nth_error outs i = Some (OPrune rep) ->
+  exists ci ci' evs,
+    run tb (firstn i ops) (with_desired_size desired) 0 = Ok (ci, time_of (firstn i ops), firstn i outs) /\
+    prune tb ci (time_of (firstn i ops)) = Ok (ci', rep) /\ Inv ci /\ Inv ci' /\
+    a_prune (abs_map ci) (abs_lru ci) (time_of (firstn i ops)) desired (abs_map ci') (abs_lru ci') evs /\
+    report_ok (abs_map ci) (abs_map ci') (time_of (firstn i ops)) desired evs rep /\
+    (forall k e, abs_map ci' k = Some e -> time_of (firstn i ops) < e) /\
+    c_size ci' <= desired /\ card (abs_map ci') (c_size ci').
+Proof. exact prune_in_history. Qed.
+Print Assumptions C15_prune_in_history.
+
+(* count_is_distinct_entries *)
+Theorem C15_count_is_distinct_entries : forall c, Inv c -> card (abs_map c) (c_size c).
+Proof. exact count_is_distinct_entries. Qed.
+Print Assumptions C15_count_is_distinct_entries.
+
+Theorem C15_count_after_history : forall tb, tie_ok tb -> forall desired ops c now outs,
+  run tb ops (with_desired_size desired) 0 = Ok (c, now, outs) -> card (abs_map c) (c_size c).
+Proof. exact count_after_history. Qed.
+Print Assumptions C15_count_after_history.
+
+(* every operation refines the abstract cache *)
+Theorem C15_step_refines : forall tb, tie_ok tb -> forall c now o,
+  Inv c ->
+  exists c' now' x, step tb c now o = Ok (c', now', x) /\ Inv c' /\ c_desired c' = c_desired c /\
+    abs_step (abs_map c) (abs_lru c) now (c_desired c) o (abs_map c') (abs_lru c') now' x.
+Proof. exact step_refines. Qed.
+Print Assumptions C15_step_refines.
+
+(* ties among equal expiry instants do not affect what is reported as expired *)
+Theorem C15_expired_count_tie_independent : forall tb1 tb2 c now c1 r1 c2 r2,
+  tie_ok tb1 -> tie_ok tb2 -> Inv c ->
+  prune tb1 c now = Ok (c1, r1) -> prune tb2 c now = Ok (c2, r2) ->
+  pr_expired r1 = pr_expired r2 /\ pr_overflowed r1 = pr_overflowed r2.
+Proof. exact expired_count_tie_independent. Qed.
+Print Assumptions C15_expired_count_tie_independent.
+
+Theorem C15_tb_first_ok : tie_ok tb_first.
+Proof. exact tb_first_ok. Qed.
+Print Assumptions C15_tb_first_ok.
+
+(* ---- examples ---- *)
+Definition ex_name (l : N) : dname := {| labels := [[l]; []]; nlen := 3 |}.
+Definition ex_mname : dname := ex_name 109.
+Definition ex_a_rr (n : dname) (v ttl : N) : rr :=
+  {| rr_name := n; rr_type := RT_A; rr_class := RC_IN; rr_ttl := ttl; rr_data := RD_A v |}.
+Definition ex_mx_rr (n : dname) (ttl : N) : rr :=
+  {| rr_name := n; rr_type := RT_MX; rr_class := RC_IN; rr_ttl := ttl; rr_data := RD_MX 10 ex_mname |}.
+
+(* the regression witness of the defect fixed in /repo (upsert recomputed next_expiry over
+   one record type only; prune then reported (false, 2, 0, 0) and kept the expired MX) *)
+Definition witness : list op :=
+  [Advance 1; Insert (ex_a_rr (ex_name 97) 16909060 1); Advance 1; Insert (ex_mx_rr (ex_name 97) 2);
+   Advance 1; Insert (ex_a_rr (ex_name 97) 16909060 100); Advance 2500000000; Prune].
+
+Example C15_witness :
+  exists c now,
+    run tb_first witness (with_desired_size 10) 0 =
+    Ok (c, now, [OUnit; OUnit; OUnit; OUnit; OUnit; OUnit; OUnit;
+                 OPrune {| pr_overflowed := false; pr_current := 1; pr_expired := 1; pr_pruned := 0 |}]) /\
+    abs_map c (ex_name 97, RT_MX, RD_MX 10 ex_mname) = None /\
+    abs_map c (ex_name 97, RT_A, RD_A 16909060) = Some 100000000003.
+Proof. eexists _, _. split; [vm_compute; reflexivity|]. split; vm_compute; reflexivity. Qed.
+
+(* an over-size prune: three names, desired size 2; "a" was used least recently and goes,
+   whole (both its records), although evicting one record would have sufficed *)
+Definition lru_history : list op :=
+  [Advance 1; InsertAll [ex_a_rr (ex_name 97) 1 300; ex_a_rr (ex_name 97) 2 300]; Advance 1;
+   Insert (ex_a_rr (ex_name 98) 1 300); Advance 1; Insert (ex_a_rr (ex_name 99) 1 1); Advance 1;
+   Get (ex_name 98) QT_Wildcard; Advance 1000000000; Prune].
+
+Example C15_lru_example :
+  exists c now,
+    run tb_first lru_history (with_desired_size 2) 0 =
+    Ok (c, now, [OUnit; OUnit; OUnit; OUnit; OUnit; OUnit; OUnit; ORRs [ex_a_rr (ex_name 98) 1 299]; OUnit;
+                 OPrune {| pr_overflowed := true; pr_current := 1; pr_expired := 1; pr_pruned := 2 |}]) /\
+    abs_lru c (ex_name 97) = None /\ abs_lru c (ex_name 98) = Some 4.
+Proof. eexists _, _. split; [vm_compute; reflexivity|]. split; vm_compute; reflexivity. Qed.
